@@ -55,6 +55,7 @@ impl Seq {
                 property,
                 sig: format!("{}:status:{}:got={}", property, what, got),
                 detail: format!("{} answered status {} where {:?} was expected", what, got, want),
+                group: 0,
             });
             false
         }
@@ -143,6 +144,7 @@ impl Seq {
                         property: "C10",
                         sig: "C10:create-echo".into(),
                         detail: format!("CreateSubscription echoed {:?}, expected name {} topic {} deadline {}", v, name, topic, want_dl),
+                        group: 0,
                     });
                 }
             }
@@ -349,6 +351,7 @@ impl Seq {
                             property: "C04",
                             sig: "C04:late:stream-redelivery-late".into(),
                             detail: format!("open stream on {} received a redelivery {} ms after the latest admissible expiry instant", short(&sub), (vt - t) / MS),
+                            group: u64::MAX,
                         });
                     }
                 }
@@ -384,11 +387,16 @@ impl Seq {
         let mut all: Vec<Found> = self.unexpected_status.drain(..).collect();
         all.extend(self.m.found.drain(..));
         let n = all.len() as u64;
-        if let Some(f) = all.into_iter().next() {
+        if let Some(first) = all.first().cloned() {
+            let mut kept = 0;
             if rep.violations.is_empty() {
-                rep.viol(f.property, f.sig, f.detail);
+                // everything the first divergent event showed (one response can break two properties)
+                for f in all.into_iter().filter(|f| f.group == first.group && (f.group != 0 || f.sig == first.sig)) {
+                    rep.viol(f.property, f.sig, f.detail);
+                    kept += 1;
+                }
             }
-            rep.add("followup_findings_suppressed", n - 1);
+            rep.add("followup_findings_suppressed", n - kept.min(n));
         }
         rep.add("in_window_steps", self.m.in_window_steps);
         rep.add("expiries_crossed", self.m.expiries_crossed);
